@@ -38,7 +38,7 @@ def run_case(ctx, g, gd, q, via="outcomes", gkey=None):
         if via == "shared-identify":
             identify(Identification(query=Query(outcomes=Y, treatments=X), graph=g))
         else:
-            gq.call_id(g, {"X": q["X"], "Y": q["Y"], "Z": []}, via)
+            gq.call_id(g, {"X": q["X"], "Y": q["Y"], "Z": []}, via, prop=PROP)
     except Exception:  # noqa: BLE001  -- judged by the on_raise monitor
         pass
     tags = set(kernel.tags())
